@@ -1,4 +1,5 @@
 import YatimlModel.Model.Process
+import YatimlModel.Lemmas.Unrelated
 /-!
 # C13 — load is invariant under changes that do not alter the document's meaning
 
@@ -112,5 +113,14 @@ theorem C13_bool_union_fix :
       simp [h1, h2]
     rw [if_pos hc] at hmem
     simp at hmem
+
+/-- **Unrelated classes.**  Registering one more class that has a new name, is not derived from a
+registered class and is not mentioned by any registered class (parameter types, custom recognisers)
+leaves recognition of every node that is not tagged with the new class, against every type that does not
+mention it, exactly as it was: same recognised types, same error, same fatal outcome. -/
+theorem C13_unrelated_class (env : Env) (d : ClassDef) (hu : Unrelated env d) (fuel : Nat) (n : Node) (T : Ty)
+    (hn : TagFree ("!" ++ d.name) n) (hT : NoU d.name T) :
+    recognize (env.plus d) fuel n T = recognize env fuel n T :=
+  recognizeReq_plus env d hu fuel n (.ty T) hn hT
 
 end YatimlModel.C13
